@@ -357,7 +357,11 @@ def main():
     if a.replay:
         rp = json.loads(Path(a.replay).read_text())
         only = rp["harness"]
-        log("replaying harness", only, "from", a.replay)
+        if only.startswith("mir:"):
+            only = "engine:mirsmt"
+        elif only.startswith(("schoolbook_", "div_wide", "asm:")):
+            only = "engine:asmsym"
+        log("replaying", rp["harness"], "from", a.replay, "(re-runs the query on the current tree and replays it natively again)")
     t0 = time.time()
     scr = Scratch(pid, keep=a.keep)
     try:
